@@ -2,7 +2,8 @@
 Correspondence: Characteristic (numpy.interp) and SplineCharacteristic(interpolator_kind="Pchip") (values and node slopes)
 vs C32.Model.interp / pchip / slopes, exact rational model vs float impl within 1e-11.
 Oracle: pass-through at every support point (all four kinds incl. quadratic interp1d and LogSpline), results within the
-neighbouring support values (linear always; Pchip / LogSpline-Pchip for monotone data), identical evaluation and
+neighbouring support values (linear always; Pchip / LogSpline-Pchip for monotone data), monotone over the whole range
+[x_0, x_n] for monotone data (Pchip / LogSpline-Pchip; dense grid straddling every node), identical evaluation and
 identical x/y data after a to_json/from_json round trip of the net (file-less string round trip and file)."""
 import copy, math, os, tempfile
 from fractions import Fraction
@@ -79,6 +80,29 @@ def within_neighbours(xs, ys, x, v, tol):
         i = max(j for j in range(len(xs)) if xs[j] <= x)
         lo, hi = min(ys[i], ys[i + 1]), max(ys[i], ys[i + 1])
     return lo - tol <= v <= hi + tol
+
+
+def _whole_curve_monotone(ctx, o, xs, ys, ev, scale, what, case, geometric=False):
+    """monotone data: the curve is monotone on [x_0, x_n] (whole-curve theorem); checked at the evaluation points and on a
+    grid with points just left and right of every node"""
+    g = [x for x in ev if xs[0] <= x <= xs[-1]]
+    for a, b in zip(xs, xs[1:]):
+        for k in (1, 2, 5, 9, 13, 14, 15):
+            g.append((a ** (1 - k / 16.0)) * (b ** (k / 16.0)) if geometric else a + (b - a) * k / 16.0)
+        g.append(float(np.nextafter(a, b)))
+        g.append(float(np.nextafter(b, a)))
+    g = sorted(set(x for x in g if xs[0] <= x <= xs[-1]))
+    vals = [float(o(x)) for x in g]
+    sg = 1.0 if ys[-1] >= ys[0] else -1.0
+    tol = 1e-10 * scale
+    lo, hi = min(ys), max(ys)
+    for (x1, v1), (x2, v2) in zip(zip(g, vals), zip(g[1:], vals[1:])):
+        if sg * (v2 - v1) < -tol:
+            ctx.violation("spec", "%s is not monotone on monotone data: f(%r) = %r, f(%r) = %r" % (what, x1, v1, x2, v2), case)
+            return
+    if vals and (min(vals) < lo - tol or max(vals) > hi + tol):
+        ctx.violation("spec", "%s leaves the range of the support values on [x_0, x_n]: [%r, %r] vs [%r, %r]" % (
+            what, min(vals), max(vals), lo, hi), case)
 
 
 def _safe_vals(ctx, o, xs, what, rc):
@@ -205,6 +229,11 @@ def _one_case(ctx, rng, net, it, t_lin, k_lin, t_pc, k_pc):
                 if xs[0] <= x <= xs[-1] and not within_neighbours(xs, ys, x, v, 1e-10 * scale):
                     ctx.violation("spec", "Pchip SplineCharacteristic(%r) = %r leaves the neighbouring support values (monotone data)" % (x, v), case)
         if monotone(ys) and len(xs) >= 2:
+            # C32_pchip_monotone_data_monotone_curve on the real interpolator: monotone over the whole range [x_0, x_n]
+            # (support points, midpoints, random points and a dense grid that straddles every node)
+            _whole_curve_monotone(ctx, sp, xs, ys, ev, scale, "Pchip SplineCharacteristic", case)
+            ctx.count("pchip_whole_curve_%s" % ("inc" if ys[-1] >= ys[0] else "dec"))
+        if monotone(ys) and len(xs) >= 2:
             # hypotheses of C32_pchip_piece_monotone_range on the real interpolator: node slopes in [0, 3*secant] of both neighbours
             sg = 1.0 if ys[-1] >= ys[0] else -1.0
             sec = [sg * (b - a) / (xb - xa) for a, b, xa, xb in zip(ys, ys[1:], xs, xs[1:])]
@@ -238,6 +267,9 @@ def _one_case(ctx, rng, net, it, t_lin, k_lin, t_pc, k_pc):
                 v = float(lg(x))
                 if not within_neighbours(lx, ly, x, v, 1e-9 * max(ly)):
                     ctx.violation("spec", "LogSplineCharacteristic(%r) = %r leaves the neighbouring support values" % (x, v), lcase)
+            # C32_logspline_pchip_monotone_curve on the real object
+            _whole_curve_monotone(ctx, lg, lx, ly, lev, max(ly), "LogSplineCharacteristic(Pchip)", lcase, geometric=True)
+            ctx.count("logspline_whole_curve")
         objs.append(("log", lg, lev))
         # non-default interpolator arguments (kept in obj.kwargs and needed again after loading)
         kw_variants = [dict(kind="linear", fill_value=(ys[0], ys[-1])), dict(kind="slinear"), dict(kind="linear", fill_value="extrapolate")]
